@@ -15,6 +15,7 @@
 //     {"e":"GetI","grid":k,"kind":..,"x4":q,"res":i,"threw":false|true}
 //   "int" grids: integer nodes, image = 4*value.  "lin"/"log": general doubles; image = rank among all doubles
 //   that occur (nodes and queries), an order isomorphism.
+#include <limits>
 #include <SQuIDS/SQuIDS.h>
 #include <cstdio>
 #include <cstring>
@@ -209,11 +210,17 @@ static int trace_mode(int argc, char** argv) {
         a = (U(rng) * 2 - 1) * mag;
         b = a + U(rng) * mag * (c % 4 == 0 ? 1e-3 : 1.0) + mag * 1e-6;
         if (c % 7 == 3) { a = -b; if (a > b) std::swap(a, b); if (a == b) b = a + 1; }
+        // the narrowest and the most extreme linear ranges (a < b by however little, in absolute terms)
+        static const double EXTL[10][2] = {{0, 1e-18}, {-2e-20, 3e-20}, {1e-30, 1e-22}, {-1e-300, 1e-300}, {0, 4e-323}, {1e300, 1.7e308},
+                                           {-1.7e308, -1e300}, {1, 1 + 1e-13}, {-1e-17, 0}, {123456789.0, 123456789.0 + 1e-6}};
+        if (c >= 4 && c < 14) { a = EXTL[c - 4][0]; b = EXTL[c - 4][1]; }
       } else {
         a = std::pow(10.0, U(rng) * 17 - 9);          // > 1e-10 as Set_xrange demands
         b = a * (1 + std::pow(10.0, U(rng) * 8 - 3));
         static const double EXT[4][2] = {{1e-5, 1e305}, {1.5e-10, 1e300}, {0.5, 1.7e308}, {1e-9, 1e308}};
         if (c < 4) { a = EXT[c][0]; b = EXT[c][1]; }                                                       // the widest representable ranges
+        static const double EXTN[4][2] = {{1.5e-10, 1.5000001e-10}, {1, 1 + 1e-12}, {1e-10 * (1 + 1e-9), 1.000001e-10 * (1 + 1e-9)}, {1e300, 1.0000001e300}};
+        if (c >= 4 && c < 8) { a = EXTN[c - 4][0]; b = EXTN[c - 4][1]; }                                   // the narrowest
         if (c % 11 == 5) { a = std::pow(10.0, U(rng) * 9 - 9.5); b = std::pow(10.0, 300 + U(rng) * 7.9); }
         if (c % 11 == 7) { a = std::pow(10.0, 290 + U(rng) * 10); b = a * (1.5 + U(rng) * 50); }
       }
@@ -229,7 +236,7 @@ static int trace_mode(int argc, char** argv) {
       for (long i = 0; i + 1 < nx; i++) if (xs[i + 1] < xs[i]) mono++;
       long end0, endN, dev = 0;
       if (kind == 0) {
-        long double S = std::max(std::fabs(a), std::fabs(b)), u = EPS * S;
+        long double S = std::max(std::fabs(a), std::fabs(b)), u = std::max((long double)EPS * S, (long double)std::numeric_limits<double>::denorm_min());   // a real ulp, also for subnormal ranges
         for (long i = 0; i < nx; i++) {
           long double ideal = (long double)a + ((long double)b - (long double)a) * (long double)i / (long double)(nx - 1);
           dev = std::max(dev, iceil_ratio((long double)xs[i] - ideal, u));
